@@ -313,4 +313,52 @@ def bodiesEquiv (ctx : Ctx) (a m : Expr) : Bool :=
       k == k' && decide (k < 2 ^ 64) && (List.range k).all (fun i => eqNf { ctx with index := some i } a' m')
   | a, m => eqNf { ctx with index := none } a m
 
+
+/-! ### distinguishing inputs
+
+When two bodies have *different* normal forms, a raw value and a written value on which they evaluate differently
+can be read off the first position where the provenances differ. These functions only *propose* an input (the run
+executes the real code on it and compares with the reference semantics); nothing is proved about them. -/
+
+/-- `(raw, written value)` making `a` true and `b` false, or the other way round -/
+def srcWitness (a b : Src) : Option (Nat × Nat) :=
+  let setBit (arg : Bool) (j : Nat) (v : Bool) (p : Nat × Nat) : Nat × Nat :=
+    if !v then p else if arg then (p.1, p.2 ||| (1 <<< j)) else (p.1 ||| (1 <<< j), p.2)
+  match a, b with
+  | .c x, .c y => if x = y then none else some (0, 0)
+  | .c x, .inp arg j n => some (setBit arg j (!x != n) (0, 0))
+  | .inp arg j n, .c y => some (setBit arg j (!y != n) (0, 0))
+  | .inp a1 j1 n1, .inp a2 j2 n2 =>
+      if a1 = a2 ∧ j1 = j2 then (if n1 = n2 then none else some (0, 0))
+      else some (setBit a2 j2 n2 (setBit a1 j1 (!n1) (0, 0)))
+  | _, _ => none
+
+def listWitness : List Src → List Src → Option (Nat × Nat)
+  | x :: xs, y :: ys => if x = y then listWitness xs ys else (srcWitness x y).orElse (fun _ => listWitness xs ys)
+  | _, _ => none
+
+def svalWitness : SVal → SVal → Option (Nat × Nat)
+  | .int _ a, .int _ b => listWitness a b
+  | .uint _ a, .uint _ b => listWitness a b
+  | .bool a, .bool b => srcWitness a b
+  | _, _ => none
+
+def resWitness : SRes → SRes → Option (Nat × Nat)
+  | .ok a, .ok b => svalWitness a b
+  | .call _ a, .call _ b => svalWitness a b
+  | .panic, .ok _ => some (0, 0)
+  | .ok _, .panic => some (0, 0)
+  | _, _ => none
+
+/-- index, raw value and written value proposed as a distinguishing input for two bodies that are not equivalent -/
+def bodiesWitness (ctx : Ctx) (a m : Expr) : Option (Option Nat × Nat × Nat) :=
+  let atCtx (c : Ctx) (x y : Expr) : Option (Nat × Nat) :=
+    match nf c c.init x, nf c c.init y with
+    | some r, some r' => resWitness r r'
+    | _, _ => none
+  match a, m with
+  | .assertE (.bin .lt (.var .index) (.lit .usize k)) a', .assertE (.bin .lt (.var .index) (.lit .usize _)) m' =>
+      (List.range k).findSome? (fun i => (atCtx { ctx with index := some i } a' m').map (fun w => (some i, w.1, w.2)))
+  | a, m => (atCtx { ctx with index := none } a m).map (fun w => (none, w.1, w.2))
+
 end Bb.Nf
